@@ -371,7 +371,7 @@ theorem walk_node (R : RParser) (D : ToDom) : ∀ (k : Node) (w : WState) (base 
           (fun w1 hi1 => by
             obtain ⟨w2, N', ext', hall, hi2, hp2, hrel, _⟩ := walk_kids R D kids w1 _ _ [] [] tc 0 qe _ none false (lowerName name)
               hi1 hNN.2.1 (.inl hNN.2.2) hopts hko hnm.2 hckk hnorm.1 hrun prevOk_init
-            exact ⟨w2, N', ext', hall, by simpa using hi2, hp2, hrel⟩)
+            exact ⟨w2, N', ext', hall, by simpa using hi2, hp2, hrel.stable⟩)
           hve (by rw [hpw, ho]; exact hlo) hfn
         refine ⟨w3, _, ext3, ?_, hi3, hp.step _ _, rfl, fun h => by simp [Node.isLeaf] at h⟩
         simp only [domOf, hd, elemDom]
@@ -427,7 +427,7 @@ theorem walk_node (R : RParser) (D : ToDom) : ∀ (k : Node) (w : WState) (base 
                     exact ⟨w2, N', hall, by simpa using hi2, hp2, hrel⟩)
                 exact ⟨w3', N3, hadd', h1, h2, h3⟩
             obtain ⟨w2, N', hadd2, h1, h2, h3⟩ := key
-            refine ⟨w2, N', [], ?_, h1, h2, h3⟩
+            refine ⟨w2, N', [], ?_, h1, h2, h3.stable⟩
             rw [addAll]
             simp only [hadd2]
             rw [addAll])
